@@ -6072,6 +6072,8 @@ func (t *Terminal) Loop() error {
 				if length <= 2 {
 					if length != t.pointerLen {
 						t.forceRerenderList()
+						// The width left for a wrapped line changes
+						t.clearNumLinesCache()
 					}
 					t.pointer = pointer
 					t.pointerLen = length
